@@ -54,6 +54,9 @@ def validate(events, sc, what, k=1):
     with concurrent.futures.ThreadPoolExecutor(max_workers=len(chunks)) as ex:
         rs = list(ex.map(one, range(len(chunks))))
     mms, rds = [], []
+    for r in rs:
+        if r.jsons("SX"):
+            raise lib.Inconclusive("the two formulations of the property in Redact.tla disagree: %s" % r.jsons("SX")[:3])
     for ix, r in enumerate(rs):
         for m in r.jsons("MM"):
             ev = chunks[ix][m["l"] - 1]
@@ -157,7 +160,7 @@ def check(tier):
     binp = lib.build("c45")
     binr = lib.build("c45", race=True)
     ntr, nst = (31, 10) if not big else (301, 10)
-    nbursts, per_g, G = (50, 2, 8) if not big else (600, 2, 8)
+    nbursts, per_g, G = (30, 2, 8) if not big else (600, 2, 8)
     with lib.Scratch() as sc, concurrent.futures.ThreadPoolExecutor(max_workers=2) as bg:
         mc = bg.submit(model_check, tier)
         mcv = bg.submit(model_check_variant)
@@ -191,7 +194,7 @@ def check(tier):
             for e in t:
                 e["tr"] = -10 - j
             stev += t
-        allmm, rds, w1 = validate(sev + stev + cev, sc, "main", k=2 if not big else 8)
+        allmm, rds, w1 = validate(sev + stev + cev, sc, "main", k=3 if not big else 8)
         rds = [x for x in rds if x[0]["tr"] >= 0]
         for j, (t, kind) in enumerate(selft):
             if not any(ev["tr"] == -10 - j and d["kind"] == kind for ev, d in allmm):
@@ -238,7 +241,7 @@ def check(tier):
             "states": mcr.distinct, "transitions": mcr.generated,
             "traces_validated_against_impl": nsess + nburst,
             "samples": samples,
-            "exhaustive": True,
+            "model_exhaustive": True,
             "evaluations": srep["cases"] + crep["cases"],
             "distinct_nontrivial": ex["distinct_nontrivial"] + crep["extra"]["distinct_nontrivial"],
             "rule": "TLC explores every interleaving of the Mapping machine (%s, symmetry over clients and lexemes); "
